@@ -78,6 +78,12 @@ def strip_vocab(side):
     return {k: v for k, v in side.items() if k not in voc}
 
 
+def has_reagent(add):
+    """a real template reagent (not just the atomic placeholders / dihydrogen / water) was added"""
+    voc = template_vocab() - {"[H]", "[O]", "O", "[H][H]"}
+    return any(k in voc for side in add for k in side)
+
+
 def template_labelled(add):
     voc = template_vocab()
     return any(k in voc for side in add for k in side)
@@ -137,8 +143,11 @@ def compare(rx, base, var_rx, row):
         out.append((["unparsable-result"], "result of {} or {} does not parse".format(rx, var_rx)))
         return out
     if a0 != a1:
-        if template_labelled(a0) and template_labelled(a1) and [strip_vocab(s) for s in a0] == [strip_vocab(s) for s in a1]:
-            return out  # differs only in the redox reagent template
+        # "apart from the choice of redox reagent template": one result carries a reagent
+        # template where the other carries the bare [H] / [O] placeholders (or another template)
+        if (has_reagent(a0) or has_reagent(a1)) and template_labelled(a0) and template_labelled(a1) \
+                and [strip_vocab(s) for s in a0] == [strip_vocab(s) for s in a1]:
+            return out
         out.append((["added-molecules-differ", base.get("solved_by")],
                     "{} adds {} but its variant {} adds {}".format(rx, a0, var_rx, a1)))
     return out
